@@ -366,6 +366,7 @@ func (lg *ledger) sliceableAt(x ssa.Value, from, to *ssa.BasicBlock, depth int) 
 	if depth > 6 {
 		return false
 	}
+	x = throughCell(x)
 	ctx := &proofCtx{visited: map[string]bool{}, done: map[string]string{}, failed: map[string]bool{}, nilPhis: map[*ssa.Phi]bool{}}
 	// (together with the separate obligation kind in {Array,Slice,String}) not-an-array suffices
 	for _, p := range []pred{{kind: pKindIn, v: x, kinds: ^uint64(0) &^ (1 << kArray)}, {kind: pCanAddr, v: x}} {
